@@ -384,6 +384,41 @@ func genC01(c *Ctx) {
 		return t
 	}()
 
+	// ---------- structs whose layout is not the list of their exported fields ----------
+	// (reflect.StructOf cannot make these: a hidden field before the exported ones, and two distinct types that print alike)
+	{
+		f := func(h, a int, k string) *TV {
+			return tvUnexp("F", tvInt("int", fmt.Sprint(h)), tvInt("int", fmt.Sprint(a)), tvStr(k))
+		}
+		r1 := func(k string, a int) *TV { return tvUnexp("R1", tvStr(k), tvInt("int", fmt.Sprint(a))) }
+		r2 := func(pad, priv int, k string) *TV {
+			return tvUnexp("R2", tvInt("int", fmt.Sprint(pad)), tvInt("int", fmt.Sprint(priv)), tvStr(k))
+		}
+		doc := tvMap("str", [][2]any{
+			{hx("f"), f(9, 3, "kf")},
+			{hx("fs"), tvSlice(1, f(1, 10, "x"), f(2, 20, "y"))},
+			{hx("p"), tvPtr(f(5, 6, "kp"))},
+			{hx("one"), r1("first", 1)},
+			{hx("two"), r2(7, 8, "second")},
+			{hx("mix"), tvSlice(1, r1("m1", 11), r2(70, 80, "m2"), r1("m3", 33))},
+		})
+		n := func(x string) string { return logicalDoc(dNum(x)) }
+		st := func(x string) string { return logicalDoc(dStr(x)) }
+		for round := 0; round < 2; round++ { // the second round meets whatever the first one left behind
+			for _, qx := range [][2]string{
+				{"$.f.a", n("3")}, {"$.f.A", n("3")}, {"$.f.k", st("kf")}, {"$.f.K", st("kf")}, {"$.f.hidden", "KNF"}, {"$.f.Hidden", "KNF"},
+				{"$.fs.a", logicalDoc(dArr(dNum("10"), dNum("20")))}, {"$.fs.k", logicalDoc(dArr(dStr("x"), dStr("y")))}, {"$.fs.hidden", "KNF"},
+				{"$.p.a", n("6")}, {"$.p.k", st("kp")},
+				{"$.one.k", st("first")}, {"$.two.k", st("second")}, {"$.one.k", st("first")}, {"$.one.a", n("1")}, {"$.two.pad", n("7")},
+				{"$.two.a", "KNF"}, {"$.one.pad", "KNF"}, {"$.two.priv", "KNF"}, {"$.two.K", st("second")}, {"$.one.K", st("first")},
+				{"$.mix.k", logicalDoc(dArr(dStr("m1"), dStr("m2"), dStr("m3")))}, {"$.mix.a", logicalDoc(dArr(dNum("11"), dNum("33")))},
+				{"$.mix.pad", logicalDoc(dArr(dNum("70")))},
+			} {
+				c.Do(Case{Q: qx[0], D: doc, XK: "logical", X: qx[1], Cls: "named/struct-layouts", InDomain: true})
+			}
+		}
+	}
+
 	// ---------- random block ----------
 	nDocs := c.scale(2000, 20000)
 	for i := 0; i < nDocs; i++ {
